@@ -730,12 +730,18 @@ pub fn get_value(
                     };
 
                     // `log(1000)` is 3, not the 2.9999999999999996 that ln(1000) / ln(10) gives
-                    Variant::from_float(if base == 10.0 {
+                    let logarithm = if base == 10.0 {
                         val.log10()
                     } else if base == 2.0 {
                         val.log2()
                     } else {
                         val.log(base)
+                    };
+                    // the same for any base: `log(243, 3)` is 5, not 4.999999999999999
+                    let exponent = logarithm.round();
+                    Variant::from_float(match exponent.abs() <= 1024.0 && base.powi(exponent as i32) == val {
+                        true => exponent,
+                        false => logarithm,
                     })
                 }
                 _ => Variant::empty(VariantType::String),
